@@ -85,7 +85,7 @@ def no_reuse(line):
 
 
 def gen_cases(rng, tier):
-    mult = 6 if tier == "thorough" else 1
+    mult = 12 if tier == "thorough" else 2
     cs = []
     for _ in range(170 * mult):
         cs.append(Case(plain17_history(rng), "plain-admin-last"))
